@@ -13,7 +13,9 @@
 (* may additionally rewrite an unchanged node with identical content - see Allowed.       *)
 EXTENDS MPT
 
-CONSTANTS MaxKeys
+CONSTANTS MaxKeys,
+          TrackHash,   \* TRUE: also maintain the hash-scheme store and the set of committed roots
+          MaxRoots     \* TrackHash: number of commit generations explored
 
 VARIABLES kv,        \* key-value set of the open (modified) trie
           tree,      \* its node graph
@@ -95,11 +97,17 @@ ApplyP(st, S) ==
   [p \in (DOMAIN st \ del) \cup {e.path : e \in wr} |->
      IF \E e \in wr : e.path = p THEN (CHOOSE e \in wr : e.path = p).blob ELSE st[p]]
 
+NodeAt(t, p) == (CHOOSE x \in StoredPaths(t) : x.path = p).node
+
 Commit ==
   /\ nset' = MinSet
   /\ pstore' = ApplyP(pstore, MinSet)
-  /\ hstore' = hstore \cup {[key |-> Hash(x.node), blob |-> Blob(x.node)] : x \in StoredPaths(tree)}
-  /\ roots' = roots \cup {tree}
+  /\ IF TrackHash
+     THEN /\ Cardinality(roots) < MaxRoots
+          (* the hash scheme stores the written nodes under their hash and ignores deletions *)
+          /\ hstore' = hstore \cup {[key |-> Hash(NodeAt(tree, e.path)), blob |-> e.blob] : e \in {x \in MinSet : x.blob # Deleted}}
+          /\ roots' = roots \cup {tree}
+     ELSE UNCHANGED <<hstore, roots>>
   /\ ckv' = kv
   /\ UNCHANGED <<kv, tree>>
 
@@ -125,12 +133,9 @@ ReadBackInv == LET t == CanonKV(ckv) IN
 (* hash scheme: every committed root stays readable *)
 HashReadBackInv == \A t \in roots : ReadBackH(hstore, t) = t
 
-(* the node set of the last commit is consistent *)
-NodeSetInv == \A e \in nset : e.prev # e.blob /\ (e.blob = Deleted => e.prev # None)
-
 (* action property: Commit's set is allowed, applied it gives the expected store, and each *)
 (* deletion / overwrite carries the blob that was stored                                    *)
 CommitOK == [][ckv' # ckv \/ nset' # nset =>
-                 /\ \A e \in nset' : Allowed(e)
+                 /\ \A e \in nset' : Allowed(e) /\ e.prev # e.blob /\ (e.blob = Deleted => e.prev # None)
                  /\ pstore' = Expected(tree)]_cvars
 =============================================================================
